@@ -445,6 +445,10 @@ func run(t *testing.T, tape *simrt.Tape) *hx.Outcome {
 		desc := ocispec.Descriptor{Digest: built.Digest, Size: int64(len(served)), MediaType: ocispec.MediaTypeImageLayerGzip}
 		hosts := common.Hosts(reg, 30*time.Second, nil, s.Tape.Draw("cfg", 2) == 1)
 		var decisions []string // decisions already taken on the cached layer, in order
+		// what an unverified use of the cached layer may have put into the chunk cache (the known finding):
+		// files it read, and everything once it ran a background fetch or a prefetch
+		skipRead := map[string]bool{}
+		skipCachedAll := false
 		tamper := func(t *simrt.Task) {
 			sub := "fscache"
 			if alt.kind == "httpcache-tamper" {
@@ -546,6 +550,9 @@ func run(t *testing.T, tape *simrt.Tape) *hx.Outcome {
 							mode = "skip"
 							l.SkipVerify()
 							err = nil
+							if len(bgs) > 1 || psize > 0 {
+								skipCachedAll = true
+							}
 						} else {
 							mode = "verify"
 							err = l.Verify(built.TOCDigest)
@@ -578,6 +585,7 @@ func run(t *testing.T, tape *simrt.Tape) *hx.Outcome {
 								p := paths[dr(len(paths))]
 								if nd, _, errno := tree.Lookup(p); errno == 0 && model.Get(p).Resolve().Type == tar.TypeReg {
 									if fh, errno := tree.Open(nd); errno == 0 {
+										skipRead[model.Get(p).Resolve().Path] = true
 										tree.Read(fh, 0, len(model.Get(p).Resolve().Data)+1) // unverified read: fills the caches
 										tree.Release(fh)
 									}
@@ -675,7 +683,7 @@ func run(t *testing.T, tape *simrt.Tape) *hx.Outcome {
 								want = rm.Data[off:end]
 							}
 							if !bytes.Equal(b, want) {
-								s.Fail("verified-wrong-bytes", "a layer verified with the pinned TOC digest returned bytes of %q [off=%d,len=%d] that differ from the content the pinned TOC describes (passthrough=%v) [alteration=%s: %s; tampered=%v; unverified-use-before=%v; prior decisions on this cached layer: %q]", p, off, ln, pt, alt.kind, alt.note, tampered, strings.Contains(prior, "skip"), prior)
+								s.Fail("verified-wrong-bytes", "a layer verified with the pinned TOC digest returned bytes of %q [off=%d,len=%d] that differ from the content the pinned TOC describes (passthrough=%v) [alteration=%s: %s; tampered=%v; unverified-use-before=%v; prior decisions on this cached layer: %q]", p, off, ln, pt, alt.kind, alt.note, tampered, strings.Contains(prior, "skip") && (skipCachedAll || skipRead[rm.Path]), prior)
 								return
 							}
 							readsOK++
